@@ -49,6 +49,21 @@ Theorem C11_no_extension_is_default : forall src, ParseTreeX gfm_none src = Pars
 Proof. exact none_is_default. Qed.
 Print Assumptions C11_no_extension_is_default.
 
+(* the same at the level the property speaks about - the rendering - for the three extensions
+   together: on a source without '~', '[' and '-' they change no byte of the output, whatever the
+   Linkify switch is, and with Linkify off the output is the default parser's *)
+Require Import GM.model.Html GM.proofs.GfmConservativeOut.
+Theorem C11_three_extensions_conservative_output : forall l cfg src,
+  bytes_ok src -> lacks 126 src -> lacks 91 src -> lacks 45 src ->
+  ConvertModelX (three_on l) cfg src = ConvertModelX (three_off l) cfg src.
+Proof. exact three_conservative_output. Qed.
+Print Assumptions C11_three_extensions_conservative_output.
+Theorem C11_three_extensions_render_as_default : forall cfg src,
+  bytes_ok src -> lacks 126 src -> lacks 91 src -> lacks 45 src ->
+  ConvertModelX (three_on false) cfg src = ConvertModel cfg src.
+Proof. exact three_conservative_default. Qed.
+Print Assumptions C11_three_extensions_render_as_default.
+
 (* Linkify, the mechanism (partial: the parser side).  On a line with no ':' , no '@' and nowhere
    "www." - the three conditions of the property - the Linkify inline parser of the GFM model
    declines: no node, context untouched, reader where PeekLine left it; for ANY regular
